@@ -3,7 +3,7 @@
    n1, n2, n3 (content is irrelevant to framing; nothing is unrolled over the payload).  Real: Message::encode(char**),
    BaseField::encode(char*), Field<f8String>::print, Field<int>::print, itoa<int>, itoa<unsigned>, fmt_chksum, FieldTraits::clear,
    the virtual get_begin_string/get_body_length/get_msg_type/get_check_sum of the header/trailer objects.
-   calc_chksum := a sum chosen by the harness (C07), its arguments are checked. */
+   calc_chksum := a sum chosen by the harness (C07), its arguments are checked; fmt_chksum := three digits (checked by C02_fmtsum.c). */
 #define NOGROUP
 #define NTOK 4
 #define WORLD_FILE "world_enc.c"
@@ -28,6 +28,17 @@ uint64_t st_mb_encode(void *self, void *to)
   if (enc_calls == 1 && self != (void*)&W_msg) enc_bad = 1;
   if (enc_calls == 2 && self != (void*)&W_trl) enc_bad = 1;
   return enc_calls < 3 ? n_sub[enc_calls++] : 0;
+}
+/* cut point: Message::fmt_chksum(unsigned) := the three zero-padded decimal digits of its argument (constant length 3; the real function is checked for
+   every value 0..255 by harness/C02_fmtsum.c).  With the real function on a symbolic sum the length of the rendered string is symbolic for the symbolic
+   executor and the string copy into the CheckSum field object goes through byte-level updates of that object (its vptr included): no result. */
+static uint32_t fmt_calls, fmt_arg;
+void st_fmt_chksum(vstr *ret, uint32_t val)
+{
+  fmt_calls++; fmt_arg = val;
+  VS_ZERO_SSO(ret); VS_P(ret) = VS_SSO(ret);
+  VS_SSO(ret)[0] = (uint8_t)('0' + (val / 100) % 10); VS_SSO(ret)[1] = (uint8_t)('0' + (val / 10) % 10); VS_SSO(ret)[2] = (uint8_t)('0' + val % 10); VS_SSO(ret)[3] = 0;
+  VS_N(ret) = 3;
 }
 static uint32_t cs_ptr_off, cs_len;
 /* (the calc_chksum cut of codec_world.h records its length; the start pointer is checked through W_sum_from) */
@@ -67,6 +78,7 @@ static int run(void)
     VF_ASSERT(t[0] == '1' && t[1] == '0' && t[2] == '=' && t[3] == '0' + W_sum / 100 && t[4] == '0' + (W_sum / 10) % 10 && t[5] == '0' + W_sum % 10 && t[6] == 1 && t[7] == 0,
               "C02: the message ends with 10=ddd<SOH> (three digits of the checksum) and a terminating NUL");
     VF_ASSERT(W_sum_calls == 1 && W_sum_len == hlen + T && W_sum_from == (void*)store, "C02: the checksum is taken over every byte before the CheckSum field");
+    VF_ASSERT(fmt_calls == 1 && fmt_arg == W_sum, "C02: the CheckSum field is rendered from the sum of those bytes");
   }
   { int can = 1;
     for (uint32_t i = 0; i < OFFS; i++) if (i + hlen < OFFS && out[i] != 0xAA) can = 0;
